@@ -1,4 +1,628 @@
-//! C18 — not built yet.
+//! C18 — sorting is a stable sort; permutation application and inversion agree.
+//! Correspondence of Model/Sort.v with simple_evaluator.rs (Sort, ApplyPermutation,
+//! InversePermutation, Gather) and ops/integer_key_sort.rs, native oracles for the property
+//! (sortedness, stability, one row permutation for all columns, apply∘inverse = id), and the
+//! differential check compiled-secure-sort = plaintext sort (oracle only, no model).
+use crate::coqfmt::*;
+use crate::gen::*;
 use crate::out::Out;
-pub const HEADER: &str = "From CC Require Import Base.Prelude.";
-pub fn run(_tier: &str, _seed: u64, _out: &mut Out) {}
+use crate::rng::Rng;
+use ciphercore_base::custom_ops::{run_instantiation_pass, CustomOperation};
+use ciphercore_base::data_types::*;
+use ciphercore_base::data_values::Value;
+use ciphercore_base::errors::Result;
+use ciphercore_base::evaluators::{evaluate_simple_evaluator, random_evaluate};
+use ciphercore_base::graphs::{create_context, Context, Graph, Node};
+use ciphercore_base::inline::inline_ops::{InlineConfig, InlineMode};
+use ciphercore_base::mpc::mpc_compiler::{prepare_for_mpc_evaluation, IOStatus};
+use ciphercore_base::ops::integer_key_sort::SortByIntegerKey;
+use ciphercore_base::random::PRNG;
+use ciphercore_base::typed_value::TypedValue;
+use serde_json::json;
+
+pub const HEADER: &str = "From CC Require Import Base.Prelude Base.Scalar Model.Sort.";
+
+// ------------------------------------------------------------------------------------------ data
+/// One column of a generated table: entries are the elements reduced mod 2^w (own data, not read
+/// back through the crate), row-major.
+#[derive(Clone)]
+struct Col {
+    name: String,
+    st: ScalarType,
+    shape: Vec<u64>,
+    data: Vec<u128>,
+}
+impl Col {
+    fn ty(&self) -> Type {
+        array_type(self.shape.clone(), self.st)
+    }
+    fn value(&self) -> Value {
+        Value::from_flattened_array(&self.data, self.st).unwrap()
+    }
+    fn row_size(&self) -> usize {
+        self.shape[1..].iter().product::<u64>() as usize
+    }
+    fn rows(&self) -> Vec<Vec<u128>> {
+        let rs = self.row_size();
+        (0..self.shape[0] as usize).map(|i| self.data[i * rs..(i + 1) * rs].to_vec()).collect()
+    }
+}
+
+fn mask(st: ScalarType) -> u128 {
+    let w = width(st);
+    if w >= 128 {
+        u128::MAX
+    } else {
+        (1u128 << w) - 1
+    }
+}
+/// the integer an element of type st stands for, as an order-preserving i128/u128 pair
+fn numeric(st: ScalarType, v: u128) -> (i128, u128) {
+    let w = width(st);
+    if st.is_signed() {
+        let s = if w == 128 {
+            v as i128
+        } else if (v >> (w - 1)) & 1 == 1 {
+            (v as i128) - (1i128 << w)
+        } else {
+            v as i128
+        };
+        (s, 0)
+    } else {
+        (0, v)
+    }
+}
+/// what to_flattened_array_u128 shows for element v (< 2^w) of type st: sign-extended
+fn ext128(st: ScalarType, v: u128) -> u128 {
+    let w = width(st);
+    if st.is_signed() && w < 128 && (v >> (w - 1)) & 1 == 1 {
+        v | !mask(st)
+    } else {
+        v
+    }
+}
+
+fn rand_elem(st: ScalarType, rng: &mut Rng) -> u128 {
+    if st == BIT {
+        rng.below(2) as u128
+    } else if rng.chance(1, 2) {
+        (boundary_i128(st, rng) as u128) & mask(st)
+    } else {
+        rng.u128() & mask(st)
+    }
+}
+
+fn payload_col(name: &str, n: u64, rng: &mut Rng) -> Col {
+    let st = *rng.pick(&ALL_ST);
+    let shape = match rng.below(5) {
+        0 | 1 => vec![n],
+        2 => vec![n, 1 + rng.below(3)],
+        3 => vec![n, 1 + rng.below(2), 1 + rng.below(3)],
+        _ => vec![n, 1, 2, 1 + rng.below(2)],
+    };
+    let total = shape.iter().product::<u64>() as usize;
+    // rows are made distinguishable most of the time so that a wrong permutation shows
+    let data = (0..total).map(|_| rand_elem(st, rng)).collect();
+    Col { name: name.to_string(), st, shape, data }
+}
+
+/// key rows of b bits with frequent duplicates: drawn from a pool of 1..=4 distinct rows (70%),
+/// uniform (20%), all equal (5%), already sorted/reversed counters (5%)
+fn key_rows(n: usize, b: usize, rng: &mut Rng) -> Vec<Vec<u128>> {
+    let mode = rng.below(20);
+    let rand_row = |rng: &mut Rng| (0..b).map(|_| rng.below(2) as u128).collect::<Vec<u128>>();
+    if mode < 14 {
+        let k = 1 + rng.below(4) as usize;
+        let pool: Vec<Vec<u128>> = (0..k).map(|_| rand_row(rng)).collect();
+        (0..n).map(|_| rng.pick(&pool).clone()).collect()
+    } else if mode < 18 {
+        (0..n).map(|_| rand_row(rng)).collect()
+    } else if mode < 19 {
+        let r = rand_row(rng);
+        (0..n).map(|_| r.clone()).collect()
+    } else {
+        let rev = rng.chance(1, 2);
+        (0..n)
+            .map(|i| {
+                let v = if rev { n - 1 - i } else { i };
+                (0..b).map(|j| ((v >> (b - 1 - j)) & 1) as u128).collect()
+            })
+            .collect()
+    }
+}
+
+fn coq_col(c: &Col, entries: &[u128]) -> String {
+    format!("({}, {}, {})", coq_string(&c.name), list_u64(&c.shape), list_u128(entries))
+}
+fn coq_tcol(c: &Col, entries: &[u128]) -> String {
+    format!("({}, {}, {}, {})", coq_string(&c.name), scalar(c.st), list_u64(&c.shape), list_u128(entries))
+}
+fn coq_cols_out(v: &Vec<Vec<u128>>) -> String {
+    list(v, |c| list_u128(c))
+}
+fn shown(c: &Col) -> Vec<u128> {
+    c.data.iter().map(|v| ext128(c.st, *v)).collect()
+}
+
+fn table_graph<F: FnOnce(&Graph, Node) -> Result<Node>>(cols: &[Col], f: F) -> Result<(Context, Graph)> {
+    let c = create_context()?;
+    let g = c.create_graph()?;
+    let mut elems = vec![];
+    for col in cols {
+        elems.push((col.name.clone(), g.input(col.ty())?));
+    }
+    let t = g.create_named_tuple(elems)?;
+    let o = f(&g, t)?;
+    o.set_as_output()?;
+    g.finalize()?;
+    c.set_main_graph(g.clone())?;
+    c.finalize()?;
+    Ok((c, g))
+}
+
+fn read_table(v: &Value, cols: &[Col]) -> Result<Vec<Vec<u128>>> {
+    let vs = v.to_vector()?;
+    let mut r = vec![];
+    for (x, c) in vs.iter().zip(cols.iter()) {
+        r.push(x.to_flattened_array_u128(c.ty())?);
+    }
+    Ok(r)
+}
+
+/// reference: the stable sorting permutation, by sorting (key, index) pairs — ties are broken by
+/// the index explicitly, so no stability assumption enters the oracle
+fn reference_perm<K: Ord + Clone>(keys: &[K]) -> Vec<usize> {
+    let mut idx: Vec<(K, usize)> = keys.iter().cloned().zip(0..keys.len()).collect();
+    idx.sort_unstable();
+    idx.into_iter().map(|x| x.1).collect()
+}
+
+/// the oracle of the property on one sorted table: `le` compares two key rows of the input
+fn oracle_sorted_table<K: Ord + Clone + std::fmt::Debug>(
+    out: &mut Out,
+    what: &str,
+    input: &serde_json::Value,
+    cols: &[Col],
+    key_ix: usize,
+    keys: &[K],
+    result: &Vec<Vec<u128>>,
+) {
+    let n = keys.len();
+    let p = reference_perm(keys);
+    // 1. sortedness of the output key column, in terms of the input keys it must consist of
+    let krows_in = cols[key_ix].rows();
+    let rs = cols[key_ix].row_size();
+    let kout: Vec<Vec<u128>> = (0..n).map(|i| result[key_ix][i * rs..(i + 1) * rs].iter().map(|v| v & mask(cols[key_ix].st)).collect()).collect();
+    // map each output key row back to a K: by matching against the expected row (same K order)
+    let mut ok_sorted = true;
+    for i in 0..n {
+        if kout[i] != krows_in[p[i]] {
+            ok_sorted = false;
+        }
+    }
+    for i in 1..n {
+        if keys[p[i - 1]] > keys[p[i]] {
+            ok_sorted = false; // reference itself not sorted: impossible
+        }
+    }
+    if !ok_sorted {
+        out.violation(&format!("{}-key-not-stably-sorted", what), input.clone(), format!("key column {:?}, expected rows in order {:?}", kout, p));
+    } else {
+        out.oracle_ok();
+    }
+    // 2. stability + one permutation for every column: every column equals the gather of its
+    //    input rows by the reference permutation (ties by input position)
+    for (ci, c) in cols.iter().enumerate() {
+        let rows = c.rows();
+        let exp: Vec<u128> = p.iter().flat_map(|&i| rows[i].iter().map(|v| ext128(c.st, *v)).collect::<Vec<_>>()).collect();
+        if result[ci] != exp {
+            // distinguish: some permutation of the rows at all?
+            let mut a: Vec<Vec<u128>> = rows.iter().map(|r| r.iter().map(|v| ext128(c.st, *v)).collect()).collect();
+            let rsz = c.row_size();
+            let mut b: Vec<Vec<u128>> = (0..n).map(|i| result[ci][i * rsz..(i + 1) * rsz].to_vec()).collect();
+            a.sort();
+            b.sort();
+            let class = if a != b { "rows-not-a-permutation" } else { "column-permuted-differently-or-unstable" };
+            out.violation(&format!("{}-{}", what, class), input.clone(), format!("column {} = {:?}, expected {:?}", c.name, result[ci], exp));
+        } else {
+            out.oracle_ok();
+        }
+    }
+}
+
+// ------------------------------------------------------------------------------------------ Sort
+fn gen_sort_table(rng: &mut Rng, n: usize, b: usize) -> (Vec<Col>, usize) {
+    let krows = key_rows(n, b, rng);
+    let key = Col { name: "key".into(), st: BIT, shape: vec![n as u64, b as u64], data: krows.concat() };
+    let npay = rng.below(4) as usize;
+    let mut cols: Vec<Col> = (0..npay).map(|i| payload_col(&format!("c{}", i), n as u64, rng)).collect();
+    let key_ix = rng.below(npay as u64 + 1) as usize;
+    cols.insert(key_ix, key);
+    (cols, key_ix)
+}
+
+fn case_sort(rng: &mut Rng, out: &mut Out, n: usize, b: usize) {
+    let (cols, key_ix) = gen_sort_table(rng, n, b);
+    // 1 in 25: ask for a key that is not there (the graph must be rejected)
+    let missing = rng.chance(1, 25);
+    let keyname = if missing { "nokey".to_string() } else { "key".to_string() };
+    let input = json!({"n": n, "b": b, "key_ix": key_ix, "key": keyname,
+        "cols": cols.iter().map(|c| json!({"name": c.name, "type": format!("{}", c.ty()), "data": format!("{:?}", c.data)})).collect::<Vec<_>>()});
+    let (cols2, kn) = (cols.clone(), keyname.clone());
+    let r = observe(move || {
+        let (_c, g) = table_graph(&cols2, |_, t| t.sort(kn))?;
+        let v = random_evaluate(g, cols2.iter().map(|c| c.value()).collect())?;
+        read_table(&v, &cols2)
+    });
+    out.stat(&format!("sort:n={}", n));
+    out.stat(&format!("sort:b={}", b));
+    out.stat(&format!("sort:{}", r.tag()));
+    let krows = cols[key_ix].rows();
+    let dups = { let mut k = krows.clone(); k.sort(); k.dedup(); k.len() < n };
+    if dups { out.stat("sort:duplicate-keys"); }
+    for c in &cols { out.stat(&format!("sort:col-rank{}", c.shape.len())); out.stat(&format!("sort:col-st:{}", scalar(c.st))); }
+    let lhs = format!("sort_op {} {}", coq_string(&keyname), list(&cols, |c| coq_col(c, &shown(c))));
+    out.case("sort", lhs, res(&r, coq_cols_out), input.clone(), n > 1 && (dups || cols.len() > 1));
+    match &r {
+        Outcome::Ok(t) if !missing => oracle_sorted_table(out, "sort", &input, &cols, key_ix, &krows, t),
+        Outcome::Err if missing => out.oracle_ok(),
+        _ => out.violation("sort-outcome", input, format!("unexpected outcome {}", r.tag())),
+    }
+}
+
+// ------------------------------------------------------------------------------------------ SortByIntegerKey
+fn case_intkey(rng: &mut Rng, out: &mut Out, n: usize, st: ScalarType) {
+    // key values: small pool with duplicates, boundary heavy (min, max, -1, 0 adjacent)
+    let k = 1 + rng.below(5) as usize;
+    let pool: Vec<u128> = (0..k).map(|_| rand_elem(st, rng)).collect();
+    let data: Vec<u128> = (0..n).map(|_| if rng.chance(3, 4) { *rng.pick(&pool) } else { rand_elem(st, rng) }).collect();
+    let bad_rank = rng.chance(1, 30);
+    let key = if bad_rank {
+        Col { name: "key".into(), st, shape: vec![n as u64, 2], data: data.iter().flat_map(|v| vec![*v, *v]).collect() }
+    } else {
+        Col { name: "key".into(), st, shape: vec![n as u64], data: data.clone() }
+    };
+    let npay = rng.below(3) as usize;
+    let mut cols: Vec<Col> = (0..npay).map(|i| payload_col(&format!("c{}", i), n as u64, rng)).collect();
+    let key_ix = rng.below(npay as u64 + 1) as usize;
+    cols.insert(key_ix, key);
+    let missing = !bad_rank && rng.chance(1, 30);
+    let keyname = if missing { "nokey".to_string() } else { "key".to_string() };
+    let input = json!({"n": n, "st": scalar(st), "key_ix": key_ix, "key": keyname,
+        "cols": cols.iter().map(|c| json!({"name": c.name, "type": format!("{}", c.ty()), "data": format!("{:?}", c.data)})).collect::<Vec<_>>()});
+    let (cols2, kn) = (cols.clone(), keyname.clone());
+    let r = observe(move || {
+        let (c, _g) = table_graph(&cols2, |g, t| g.custom_op(CustomOperation::new(SortByIntegerKey { key: kn }), vec![t]))?;
+        let c = run_instantiation_pass(c)?.get_context();
+        let v = random_evaluate(c.get_main_graph()?, cols2.iter().map(|c| c.value()).collect())?;
+        read_table(&v, &cols2)
+    });
+    out.stat(&format!("intkey:st:{}", scalar(st)));
+    out.stat(&format!("intkey:{}", r.tag()));
+    let dups = { let mut k = data.clone(); k.sort(); k.dedup(); k.len() < n };
+    let lhs = format!("sort_by_integer_key_op {} {}", coq_string(&keyname), list(&cols, |c| coq_tcol(c, &shown(c))));
+    out.case("sort_by_integer_key", lhs, res(&r, coq_cols_out), input.clone(), n > 1 && (dups || st.is_signed()));
+    match &r {
+        Outcome::Ok(t) if !missing && !bad_rank => {
+            let keys: Vec<(i128, u128)> = data.iter().map(|v| numeric(st, *v)).collect();
+            oracle_sorted_table(out, "intkey", &input, &cols, key_ix, &keys, t)
+        }
+        Outcome::Err if missing || bad_rank => out.oracle_ok(),
+        _ => out.violation("intkey-outcome", input, format!("unexpected outcome {}", r.tag())),
+    }
+}
+
+// ------------------------------------------------------------------------------------------ permutations
+const UINTS: [ScalarType; 4] = [UINT8, UINT16, UINT32, UINT64];
+
+fn rand_perm(n: usize, rng: &mut Rng) -> Vec<u64> {
+    let mut p: Vec<u64> = (0..n as u64).collect();
+    match rng.below(6) {
+        0 => {}
+        1 => p.reverse(),
+        _ => rng.shuffle(&mut p),
+    }
+    p
+}
+/// a non-permutation of the right length: a repeated image, an out-of-range image, or both
+fn spoil_perm(p: &mut Vec<u64>, st: ScalarType, rng: &mut Rng) {
+    let n = p.len();
+    let i = rng.below(n as u64) as usize;
+    match rng.below(4) {
+        0 if n > 1 => { let j = (i + 1 + rng.below(n as u64 - 1) as usize) % n; p[i] = p[j]; }
+        1 => p[i] = n as u64,
+        2 => p[i] = (mask(st) as u64).max(n as u64),
+        _ => { p[i] = n as u64 + rng.below(5); if n > 1 { p[(i + 1) % n] = p[i]; } }
+    }
+}
+
+fn case_apply_perm(rng: &mut Rng, out: &mut Out, n: usize) {
+    let x = payload_col("x", n as u64, rng);
+    let pst = *rng.pick(&UINTS);
+    let mut p = rand_perm(n, rng);
+    let valid = !rng.chance(1, 5);
+    if !valid { spoil_perm(&mut p, pst, rng); }
+    let really_valid = { let mut q = p.clone(); q.sort(); q == (0..n as u64).collect::<Vec<u64>>() };
+    let inverse = rng.chance(1, 2);
+    let input = json!({"n": n, "x_type": format!("{}", x.ty()), "x": format!("{:?}", x.data), "p_st": scalar(pst), "p": p, "inverse": inverse});
+    let run = |inv: bool, x: &Col, p: &Vec<u64>| {
+        let (xt, xv, p2) = (x.ty(), x.value(), p.clone());
+        observe(move || {
+            let c = create_context()?;
+            let g = c.create_graph()?;
+            let a = g.input(xt.clone())?;
+            let pn = g.input(array_type(vec![p2.len() as u64], pst))?;
+            let o = if inv { g.apply_inverse_permutation(a, pn)? } else { g.apply_permutation(a, pn)? };
+            o.set_as_output()?;
+            g.finalize()?;
+            c.set_main_graph(g.clone())?;
+            c.finalize()?;
+            let pv = Value::from_flattened_array(&p2, pst)?;
+            random_evaluate(g, vec![xv, pv])?.to_flattened_array_u128(xt)
+        })
+    };
+    let r = run(inverse, &x, &p);
+    out.stat(&format!("apply_perm:{}:{}", if really_valid { "valid" } else { "invalid" }, r.tag()));
+    out.stat(&format!("apply_perm:inverse={}", inverse));
+    let lhs = format!("apply_permutation_op {} {} {} {}", inverse, list_u128(&shown(&x)), list_u64(&x.shape), list_u64(&p));
+    out.case("apply_permutation", lhs, res(&r, |a| list_u128(a)), input.clone(), n > 1);
+    match (&r, really_valid) {
+        (Outcome::Ok(y), true) => {
+            // direct statement: out[i] = x[p[i]]  /  out[p[i]] = x[i]
+            let rows = x.rows();
+            let rs = x.row_size();
+            let mut good = true;
+            for i in 0..n {
+                let (o, s) = if inverse { (p[i] as usize, i) } else { (i, p[i] as usize) };
+                let exp: Vec<u128> = rows[s].iter().map(|v| ext128(x.st, *v)).collect();
+                if y[o * rs..(o + 1) * rs] != exp[..] { good = false; }
+            }
+            if good { out.oracle_ok() } else { out.violation("apply-permutation-wrong-rows", input.clone(), format!("got {:?}", y)) }
+            // apply then inverse (and inverse then apply) restores the array
+            let ycol = Col { name: "y".into(), st: x.st, shape: x.shape.clone(), data: y.iter().map(|v| v & mask(x.st)).collect() };
+            let back = run(!inverse, &ycol, &p);
+            match back {
+                Outcome::Ok(z) if z == shown(&x) => out.oracle_ok(),
+                other => out.violation("apply-inverse-not-identity", input.clone(), format!("round trip gave {:?}", other.ok())),
+            }
+        }
+        (Outcome::Err, false) => out.oracle_ok(),
+        _ => out.violation("apply-permutation-outcome", input, format!("valid={} outcome {}", really_valid, r.tag())),
+    }
+}
+
+fn case_inverse_perm(rng: &mut Rng, out: &mut Out, n: usize) {
+    let pst = *rng.pick(&UINTS);
+    let mut p = rand_perm(n, rng);
+    if rng.chance(1, 4) { spoil_perm(&mut p, pst, rng); }
+    let really_valid = { let mut q = p.clone(); q.sort(); q == (0..n as u64).collect::<Vec<u64>>() };
+    let input = json!({"n": n, "p_st": scalar(pst), "p": p});
+    let p2 = p.clone();
+    let r = observe(move || {
+        let c = create_context()?;
+        let g = c.create_graph()?;
+        let t = array_type(vec![p2.len() as u64], pst);
+        let a = g.input(t.clone())?;
+        let o = g.inverse_permutation(a)?;
+        o.set_as_output()?;
+        g.finalize()?;
+        c.set_main_graph(g.clone())?;
+        c.finalize()?;
+        random_evaluate(g, vec![Value::from_flattened_array(&p2, pst)?])?.to_flattened_array_u64(t)
+    });
+    out.stat(&format!("inverse_perm:{}:{}", if really_valid { "valid" } else { "invalid" }, r.tag()));
+    out.case("inverse_permutation", format!("inverse_permutation_op {}", list_u64(&p)), res(&r, |a| list_u64(a)), input.clone(), n > 1);
+    match (&r, really_valid) {
+        (Outcome::Ok(q), true) => {
+            if (0..n).all(|i| q[p[i] as usize] == i as u64) && q.len() == n { out.oracle_ok() } else { out.violation("inverse-permutation-wrong", input, format!("got {:?}", q)) }
+        }
+        (Outcome::Err, false) => out.oracle_ok(),
+        _ => out.violation("inverse-permutation-outcome", input, format!("valid={} outcome {}", really_valid, r.tag())),
+    }
+}
+
+fn case_gather(rng: &mut Rng, out: &mut Out) {
+    let rank = 1 + rng.below(3) as usize;
+    let shape: Vec<u64> = (0..rank).map(|_| 1 + rng.below(5)).collect();
+    let st = *rng.pick(&ALL_ST);
+    let total = shape.iter().product::<u64>() as usize;
+    let x = Col { name: "x".into(), st, shape: shape.clone(), data: (0..total).map(|_| rand_elem(st, rng)).collect() };
+    let axis = rng.below(rank as u64) as usize;
+    let dim = shape[axis];
+    let k = 1 + rng.below(dim) as usize;
+    let ishape: Vec<u64> = if k % 2 == 0 && rng.chance(1, 2) { vec![2, k as u64 / 2] } else { vec![k as u64] };
+    let pst = *rng.pick(&UINTS);
+    let mut idx: Vec<u64> = if rng.chance(1, 2) {
+        let mut all: Vec<u64> = (0..dim).collect();
+        rng.shuffle(&mut all);
+        all.truncate(k);
+        all
+    } else {
+        (0..k).map(|_| rng.below(dim)).collect()
+    };
+    let bad = rng.chance(1, 8);
+    if bad { let i = rng.below(k as u64) as usize; idx[i] = dim + rng.below(3); }
+    let input = json!({"x_type": format!("{}", x.ty()), "x": format!("{:?}", x.data), "axis": axis, "indices_shape": ishape, "indices": idx});
+    let (xt, xv, idx2, ish2) = (x.ty(), x.value(), idx.clone(), ishape.clone());
+    let r = observe(move || {
+        let c = create_context()?;
+        let g = c.create_graph()?;
+        let a = g.input(xt)?;
+        let i = g.input(array_type(ish2, pst))?;
+        let o = g.gather(a, i, axis as u64)?;
+        let ot = o.get_type()?;
+        o.set_as_output()?;
+        g.finalize()?;
+        c.set_main_graph(g.clone())?;
+        c.finalize()?;
+        random_evaluate(g, vec![xv, Value::from_flattened_array(&idx2, pst)?])?.to_flattened_array_u128(ot)
+    });
+    out.stat(&format!("gather:rank{}:axis{}:{}", rank, axis, r.tag()));
+    let lhs = format!("evaluate_gather {} {} {} {}%nat", list_u128(&shown(&x)), list_u64(&shape), list_u64(&idx), axis);
+    out.case("gather", lhs, res(&r, |a| list_u128(a)), input.clone(), total > 1);
+    match (&r, bad) {
+        (Outcome::Ok(y), false) => {
+            // reference by multi-index arithmetic: out[a, j, c] = x[a, idx[j], c]
+            let outer = shape[..axis].iter().product::<u64>() as usize;
+            let inner = shape[axis + 1..].iter().product::<u64>() as usize;
+            let mut exp = vec![];
+            for a in 0..outer { for j in 0..k { for c in 0..inner {
+                exp.push(ext128(st, x.data[(a * dim as usize + idx[j] as usize) * inner + c]));
+            } } }
+            if *y == exp { out.oracle_ok() } else { out.violation("gather-wrong", input, format!("got {:?} expected {:?}", y, exp)) }
+        }
+        (Outcome::Err, true) => out.oracle_ok(),
+        _ => out.violation("gather-outcome", input, format!("bad={} outcome {}", bad, r.tag())),
+    }
+}
+
+// ------------------------------------------------------------------------------------------ compiled secure sort
+fn seed16(rng: &mut Rng) -> [u8; 16] {
+    let mut s = [0u8; 16];
+    s[..8].copy_from_slice(&rng.next().to_le_bytes());
+    s[8..].copy_from_slice(&rng.next().to_le_bytes());
+    s
+}
+fn status_name(s: &IOStatus) -> String {
+    match s { IOStatus::Public => "Public".into(), IOStatus::Party(i) => format!("P{}", i), IOStatus::Shared => "Shared".into() }
+}
+
+/// Compiles the Sort graph for the given owners/outputs, evaluates it on `seeds` evaluator seeds
+/// and compares every column with the plaintext evaluation of the same graph.
+fn case_compiled(rng: &mut Rng, out: &mut Out, n: usize, b: usize, npay: usize, seeds: usize) {
+    let krows = key_rows(n, b, rng);
+    let key = Col { name: "key".into(), st: BIT, shape: vec![n as u64, b as u64], data: krows.concat() };
+    let mut cols: Vec<Col> = (0..npay).map(|i| payload_col(&format!("c{}", i), n as u64, rng)).collect();
+    let key_ix = rng.below(npay as u64 + 1) as usize;
+    cols.insert(key_ix, key);
+    let statuses: Vec<IOStatus> = cols.iter().enumerate().map(|(i, _)| {
+        if i == key_ix {
+            match rng.below(6) { 0 => IOStatus::Shared, 1 => IOStatus::Public, k => IOStatus::Party(k % 3) }
+        } else {
+            match rng.below(5) { 0 => IOStatus::Shared, 1 => IOStatus::Public, k => IOStatus::Party(k % 3) }
+        }
+    }).collect();
+    let outputs: Vec<IOStatus> = match rng.below(5) {
+        0 => vec![],
+        1 => vec![IOStatus::Party(0), IOStatus::Party(1), IOStatus::Party(2)],
+        k => vec![IOStatus::Party(k % 3)],
+    };
+    let input = json!({"n": n, "b": b, "owners": statuses.iter().map(status_name).collect::<Vec<_>>(),
+        "outputs": outputs.iter().map(status_name).collect::<Vec<_>>(),
+        "cols": cols.iter().map(|c| json!({"name": c.name, "type": format!("{}", c.ty()), "data": format!("{:?}", c.data)})).collect::<Vec<_>>()});
+    out.stat(&format!("compiled:n={}", n));
+    out.stat(&format!("compiled:b={}", b));
+    out.stat(&format!("compiled:key-owner={}", status_name(&statuses[key_ix])));
+    out.stat(&format!("compiled:outputs={}", outputs.len()));
+    let seeds_v: Vec<[u8; 16]> = (0..seeds).map(|_| seed16(rng)).collect();
+    let share_seed = seed16(rng);
+    let (cols2, st2, out2) = (cols.clone(), statuses.clone(), outputs.clone());
+    let r = observe(move || {
+        let (c, g) = table_graph(&cols2, |_, t| t.sort("key".to_string()))?;
+        let plain = read_table(&random_evaluate(g, cols2.iter().map(|c| c.value()).collect())?, &cols2)?;
+        let cfg = InlineConfig { default_mode: InlineMode::Simple, ..Default::default() };
+        let mc = prepare_for_mpc_evaluation(&c, vec![st2.clone()], vec![out2.clone()], cfg)?.get_context();
+        let mg = mc.get_main_graph()?;
+        let mut prng = PRNG::new(Some(share_seed))?;
+        let mut inputs = vec![];
+        for (col, s) in cols2.iter().zip(st2.iter()) {
+            if *s == IOStatus::Shared {
+                inputs.push(TypedValue::new(col.ty(), col.value())?.secret_share(&mut prng)?.value);
+            } else {
+                inputs.push(col.value());
+            }
+        }
+        let mut results = vec![];
+        for s in seeds_v {
+            let v = evaluate_simple_evaluator(mg.clone(), inputs.clone(), Some(s))?;
+            let table = if out2.is_empty() {
+                // three shares of the named tuple: add them column by column (xor for bits)
+                let shares = v.to_vector()?;
+                let mut acc: Vec<Vec<u128>> = vec![];
+                for sh in shares.iter() {
+                    let t = read_table(sh, &cols2)?;
+                    if acc.is_empty() { acc = t.iter().zip(cols2.iter()).map(|(c, col)| c.iter().map(|v| v & mask(col.st)).collect()).collect(); } else {
+                        for (ci, col) in cols2.iter().enumerate() {
+                            for (a, x) in acc[ci].iter_mut().zip(t[ci].iter()) {
+                                *a = if col.st == BIT { (*a ^ *x) & 1 } else { a.wrapping_add(*x) & mask(col.st) };
+                            }
+                        }
+                    }
+                }
+                acc.iter().zip(cols2.iter()).map(|(c, col)| c.iter().map(|v| ext128(col.st, *v)).collect()).collect()
+            } else {
+                read_table(&v, &cols2)?
+            };
+            results.push(table);
+        }
+        Ok((plain, results))
+    });
+    match r {
+        Outcome::Ok((plain, results)) => {
+            // the plaintext result itself obeys the property
+            oracle_sorted_table(out, "compiled-plain", &input, &cols, key_ix, &krows, &plain);
+            for (i, t) in results.iter().enumerate() {
+                if *t != plain {
+                    out.violation("compiled-sort-differs-from-plaintext", input.clone(), format!("seed #{}: compiled {:?} plaintext {:?}", i, t, plain));
+                } else {
+                    out.oracle_ok();
+                }
+            }
+            out.stat("compiled:Ok");
+        }
+        other => {
+            out.stat(&format!("compiled:{}", other.tag()));
+            out.violation("compiled-sort-fails", input, format!("compile/evaluate outcome {}", other.tag()));
+        }
+    }
+}
+
+// ------------------------------------------------------------------------------------------ driver
+pub fn run(tier: &str, seed: u64, out: &mut Out) {
+    let mut rng = Rng::new(seed ^ 0xC18);
+    let (rounds, compiled_cfgs, compiled_seeds) = match tier {
+        "thorough" => (14, 300, 3),
+        "search" => (40, 600, 3),
+        _ => (1, 30, 2),
+    };
+    // per-round volume of the non-grid streams (quick is kept near 500 cases)
+    let (intkey_reps, perm_reps, gather_reps) = if tier == "quick" { (1, 6, 100) } else { (2, 12, 150) };
+    for round in 0..rounds {
+        // every (n, b) of the stated grid once per round
+        for n in 1..=12usize {
+            for b in 1..=10usize {
+                case_sort(&mut rng, out, n, b);
+            }
+        }
+        for n in 1..=12usize {
+            for &st in ALL_ST.iter() {
+                for _ in 0..intkey_reps {
+                    case_intkey(&mut rng, out, n, st);
+                }
+            }
+            for _ in 0..perm_reps {
+                case_apply_perm(&mut rng, out, n);
+                case_inverse_perm(&mut rng, out, n);
+            }
+        }
+        for _ in 0..gather_reps {
+            case_gather(&mut rng, out);
+        }
+        let _ = round;
+    }
+    // compiled secure sort: widths chosen to hit b odd (short first chunk), b = 1, 2 (no loop),
+    // b >= 3 (loop runs), single-row tables
+    let mut crng = Rng::new(seed ^ 0xC18C);
+    for i in 0..compiled_cfgs {
+        let (n, b) = match i {
+            0 => (4, 3),
+            1 => (5, 2),
+            2 => (3, 1),
+            3 => (1, 4),
+            4 => (6, 5),
+            _ => (1 + crng.below(if tier == "quick" { 6 } else { 12 }) as usize, 1 + crng.below(if tier == "quick" { 5 } else { 10 }) as usize),
+        };
+        let npay = crng.below(3) as usize;
+        case_compiled(&mut crng, out, n, b, npay, compiled_seeds);
+    }
+}
